@@ -1,112 +1,20 @@
 import SJ.Spec.Ieee
 /-!
-# IEEE-754 rounding for a parameterised binary format; binary32
+# binary32 operations that lexical's fast path and `de.rs` need, on top of `Spec.Ieee`
 
-`Spec.Ieee` (a placeholder in this branch) rounds to binary64. Property C07 also speaks about `f32`
-targets and its proofs are carried out once for both formats, so this file states round-to-nearest-even
-for a format `Fmt` on exact naturals.
-
-The format-generic core below (`rne`, `Fmt`, `magOfBits`, `roundMag`, `roundBits`) is **verbatim the
-generic core of the C08 branch's `Spec/Ieee.lean`** (which replaces the placeholder at the merge), so that
-afterwards `Spec.Ieee32.roundMag = Spec.Ieee.roundMag` etc. hold by `rfl` and the nearest/ties/overflow
-theorems proved there (`roundMag_nearest`, `roundMag_tie_even`, `roundMag_overflow_iff`) apply. Until then
-`Proofs/LexBridge.lean` proves `Spec.Ieee.roundNE64 = roundBits b64` against the placeholder.
-
-Every finite value of the format is an integer multiple of `2^-qexp` (`qexp` = 1074 / 149). A bit
-pattern without its sign, `u = E·2^mbits + M`, has magnitude (in units of `2^-qexp`) `M` if `E = 0`,
-`(2^mbits + M)·2^(E-1)` otherwise, and `u ↦ magOfBits u` is strictly increasing.
-
-From `Spec.Ieee` only `roundNE64`, `F64.inf`, `F64.isInf` are used (for the two casts), by full name;
-this namespace is never opened together with `SJ.Spec.Ieee`. Import-free, computable.
+`Spec.Ieee` has the format-generic rounding (`roundMag`, `roundBits`), `roundNE32` and the binary32
+classification functions. The `f32` fast path of lexical multiplies/divides in binary32, and `de.rs` widens
+the `f32` result with `as f64`: those three operations are stated here as "exact result, rounded once"
+(meaningful for finite operands; lexical only feeds it positive finite values). Import-free, computable.
 -/
-namespace SJ.Spec.Ieee32
-
-/-- nearest natural to `num/den` (`den > 0`), ties to the even one -/
-def rne (num den : Nat) : Nat :=
-  let q := num / den
-  let r := num % den
-  if 2 * r < den then q else if den < 2 * r then q + 1 else if q % 2 = 0 then q else q + 1
-
-/-- a binary interchange format: `mbits` stored significand bits, `ebits` exponent bits -/
-structure Fmt where
-  mbits : Nat
-  ebits : Nat
-deriving Repr, DecidableEq
-
-def b64 : Fmt := ⟨52, 11⟩
-def b32 : Fmt := ⟨23, 8⟩
-
-namespace Fmt
-/-- exponent bias: 1023 / 127 -/
-def bias (F : Fmt) : Nat := 2 ^ (F.ebits - 1) - 1
-/-- every finite value is a multiple of `2^-qexp`: 1074 / 149 -/
-def qexp (F : Fmt) : Nat := F.bias - 1 + F.mbits
-/-- unsigned bit pattern of +∞ (exponent field all ones, significand 0); finite patterns are below -/
-def infBits (F : Fmt) : Nat := (2 ^ F.ebits - 1) * 2 ^ F.mbits
-/-- the sign bit -/
-def signBit (F : Fmt) : Nat := 2 ^ (F.mbits + F.ebits)
-end Fmt
-
-/-- magnitude, in units of `2^-qexp`, of the finite unsigned bit pattern `u` -/
-def magOfBits (F : Fmt) (u : Nat) : Nat :=
-  let E := u / 2 ^ F.mbits
-  let M := u % 2 ^ F.mbits
-  if E = 0 then M else (2 ^ F.mbits + M) * 2 ^ (E - 1)
-
-/-- Round-to-nearest-even of `a/b` (already expressed in units of `2^-qexp`, `b > 0`) to an unsigned
-    bit pattern. `k` is the binade's spacing exponent: `2^(mbits+k) ≤ a/b < 2^(mbits+k+1)` when
-    `k ≥ 1`, and `k = 0` through the subnormals and the first normal binade. The significand
-    `rne (a / (b·2^k))` lies in `[2^mbits, 2^(mbits+1)]` (or below `2^mbits` for subnormals), and adding
-    it to `k·2^mbits` yields the right pattern in every case, including the carry into the next
-    binade. A result `≥ infBits` means the rounded value is not finite (overflow). -/
-def roundMag (F : Fmt) (a b : Nat) : Nat :=
-  let k := Nat.log2 (a / b) - F.mbits
-  k * 2 ^ F.mbits + rne a (b * 2 ^ k)
-
-/-- signed rounding of `±num/den`: `none` on overflow -/
-def roundBits (F : Fmt) (neg : Bool) (num den : Nat) : Option Nat :=
-  let r := roundMag F (num * 2 ^ F.qexp) den
-  if r < F.infBits then some (if neg then F.signBit + r else r) else none
-
-/-- unit in the last place (in units of `2^-qexp`) of the finite unsigned pattern `u` -/
-def ulpOfBits (F : Fmt) (u : Nat) : Nat := 2 ^ (u / 2 ^ F.mbits - 1)
-
-/-- bits of the binary32 nearest to `(-1)^neg · num/den` (ties to even); `none` on overflow -/
-def roundNE32 (neg : Bool) (num den : Nat) : Option UInt32 :=
-  (roundBits b32 neg num den).map UInt32.ofNat
-
-def signBit32 (neg : Bool) : UInt32 := if neg then 0x80000000 else 0
-
+namespace SJ.Spec.Ieee
 namespace F32
-def inf (neg : Bool) : UInt32 := if neg then 0xff800000 else 0x7f800000
-def isNeg (b : UInt32) : Bool := b.toNat / 2 ^ 31 == 1
-def absBits (b : UInt32) : Nat := b.toNat % 2 ^ 31
-def isInf (b : UInt32) : Bool := absBits b == 0x7f800000
-def isZero (b : UInt32) : Bool := absBits b == 0
-/-- flip the sign bit -/
-def neg (b : UInt32) : UInt32 := b + 0x80000000
-/-- `|value| · 2^149` (finite patterns) -/
-def mag (b : UInt32) : Nat := magOfBits b32 (absBits b)
-/-- rounding that overflows to `±∞` (what the hardware operations do) -/
-def roundOrInf (neg : Bool) (num den : Nat) : UInt32 := (roundNE32 neg num den).getD (inf neg)
-/-- `n as f32` for an unsigned integer -/
-def ofNat (n : Nat) : UInt32 := roundOrInf false n 1
 /-- finite × finite: exact product, rounded once -/
-def mul (a b : UInt32) : UInt32 := roundOrInf (isNeg a != isNeg b) (mag a * mag b) (2 ^ 149 * 2 ^ 149)
+def mul (a b : UInt32) : UInt32 := roundOrInf (sign a != sign b) (mag a * mag b) (2 ^ 149 * 2 ^ 149)
 /-- finite / finite non-zero: exact quotient, rounded once -/
-def div (a b : UInt32) : UInt32 := roundOrInf (isNeg a != isNeg b) (mag a) (mag b)
+def div (a b : UInt32) : UInt32 := roundOrInf (sign a != sign b) (mag a) (mag b)
 /-- `x as f64` for finite or infinite `x : f32` (exact) -/
 def toF64 (b : UInt32) : UInt64 :=
-  if isInf b then SJ.Spec.Ieee.F64.inf (isNeg b)
-  else (SJ.Spec.Ieee.roundNE64 (isNeg b) (mag b) (2 ^ 149)).getD (SJ.Spec.Ieee.F64.inf (isNeg b))
+  if isInf b then F64.inf (sign b) else F64.roundOrInf (sign b) (mag b) (2 ^ 149)
 end F32
-
-namespace F64x
-/-- `x as f32` for finite or infinite `x : f64`: one rounding to nearest-even, overflow to `±∞` -/
-def toF32 (b : UInt64) : UInt32 :=
-  let neg := b.toNat / 2 ^ 63 == 1
-  if SJ.Spec.Ieee.F64.isInf b then F32.inf neg
-  else F32.roundOrInf neg (magOfBits b64 (b.toNat % 2 ^ 63)) (2 ^ 1074)
-end F64x
-
-end SJ.Spec.Ieee32
+end SJ.Spec.Ieee
